@@ -28,29 +28,29 @@ import (
 )
 
 type scaleCase struct {
-	Prog     string
-	Files    []inFile
-	Sels     []string
-	Want     string
-	Kind     drive.ErrKind // "" = none
-	Line     int           // when > 0: the error must be positioned on this line ...
-	SrcLine  string        // ... and quote this text
-	RootEq   string        // when set: the JSON output must denote the same value as this JSON text
-	CLI      bool          // also run the real binary
-	ModelWant bool         // no closed form: the expected result is the reference interpreter's (on the implementation's parse, strict mode)
-	Root     bool          // with ModelWant: also compare the JSON output
-	NoModel  bool          // the reference interpreter is not consulted (e.g. its budget would not cover the size)
-	ErrFile  string
+	Prog      string
+	Files     []inFile
+	Sels      []string
+	Want      string
+	Kind      drive.ErrKind // "" = none
+	Line      int           // when > 0: the error must be positioned on this line ...
+	SrcLine   string        // ... and quote this text
+	RootEq    string        // when set: the JSON output must denote the same value as this JSON text
+	CLI       bool          // also run the real binary
+	ModelWant bool          // no closed form: the expected result is the reference interpreter's (on the implementation's parse, strict mode)
+	Root      bool          // with ModelWant: also compare the JSON output
+	NoModel   bool          // the reference interpreter is not consulted (e.g. its budget would not cover the size)
+	ErrFile   string
 }
 
 type scaleFam struct {
-	Prop  string
-	Name  string
-	Max   int // largest n at the thorough tier
-	QMax  int // largest n at the quick tier
-	Dense int // thorough: every n up to here (default 1100)
-	All   bool // every n up to Max at both tiers (a family that is a list of fixed programs)
-	Build func(n int) scaleCase
+	Prop   string
+	Name   string
+	Max    int  // largest n at the thorough tier
+	QMax   int  // largest n at the quick tier
+	Dense  int  // thorough: every n up to here (default 1100)
+	All    bool // every n up to Max at both tiers (a family that is a list of fixed programs)
+	Build  func(n int) scaleCase
 	Custom func(c *fw.Ctx, n int) *fw.Violation // instead of Build: a check of its own for size n
 }
 
@@ -173,14 +173,26 @@ func scaleCheck(c *fw.Ctx, f *scaleFam, n int) *fw.Violation {
 		v := pc.mustCheck(c, f.Name)
 		if v != nil {
 			v.What = fmt.Sprintf("%s, n = %d: %s", f.Name, n, v.What)
+			return v
 		}
-		return v
+		// the model takes the order of object keys from the implementation (7.2), so it cannot see an order that changes from run
+		// to run: the same run is repeated and must print the same bytes every time
+		s := pc.spec()
+		s.Budget = 5000000 + 400*int64(n)
+		first := run(c, s)
+		for i := 0; i < 7; i++ {
+			if o := run(c, s); o.Stdout != first.Stdout || o.Kind != first.Kind {
+				o.Ev = nil
+				return &fw.Violation{What: fmt.Sprintf("%s, n = %d: two runs of the same program on the same input print different things", f.Name, n), Detail: detail{Program: clip(sc.Prog), Files: s.Files, WantStdout: clip(first.Stdout), WantKind: first.Kind, Got: o}}
+			}
+		}
+		return nil
 	}
 	kind := sc.Kind
 	if kind == "" {
 		kind = drive.KNone
 	}
-	s := drive.Spec{Program: sc.Prog, Selectors: sc.Sels, WantRoot: sc.RootEq != "", Budget: 400000000}
+	s := drive.Spec{Program: sc.Prog, Selectors: sc.Sels, WantRoot: sc.RootEq != "", Budget: 5000000 + 400*int64(n)}
 	for _, fl := range sc.Files {
 		s.Files = append(s.Files, drive.File{Name: fl.Name, Data: fl.Text})
 	}
@@ -303,7 +315,7 @@ func scaleCLI(c *fw.Ctx, f *scaleFam, n int, sc scaleCase, kind drive.ErrKind) *
 
 // scaleCrash is C01's reading of a family: whatever the size, the run ends in success or in one of the three error kinds.
 func scaleCrash(c *fw.Ctx, f *scaleFam, n int, sc scaleCase) *fw.Violation {
-	s := drive.Spec{Program: sc.Prog, Selectors: sc.Sels, WantRoot: sc.RootEq != "", Budget: 400000000}
+	s := drive.Spec{Program: sc.Prog, Selectors: sc.Sels, WantRoot: sc.RootEq != "", Budget: 5000000 + 400*int64(n)}
 	for _, fl := range sc.Files {
 		s.Files = append(s.Files, drive.File{Name: fl.Name, Data: fl.Text})
 	}
